@@ -602,9 +602,12 @@ func (x *Exec) havocLvalue(env *SpecEnv, st *State, e *Expr) {
 		if loc.whole {
 			nv = x.ctx.Fresh("hv_"+shortKey(loc.key), loc.sort)
 		} else {
-			// nothing lives at the null reference (a nil slice has no elements, a nil pointer cannot be written
-			// through): an assigns item that denotes it changes nothing
-			nv = Store(arr, loc.ref, Ite(Eq(loc.ref, x.null()), Select(arr, loc.ref), x.ctx.Fresh("hv_"+shortKey(loc.key), loc.sort.Val)))
+			hv := x.ctx.Fresh("hv_"+shortKey(loc.key), loc.sort.Val)
+			if loc.slice {
+				// a nil slice has no elements: `s[*]` of a nil slice denotes nothing
+				hv = Ite(Eq(loc.ref, x.null()), Select(arr, loc.ref), hv)
+			}
+			nv = Store(arr, loc.ref, hv)
 		}
 		st.heap[loc.key] = nv
 		if loc.whole {
@@ -620,6 +623,7 @@ type heapLoc struct {
 	sort  *Sort
 	ref   *Term
 	whole bool
+	slice bool // elements of a slice: a nil slice has none
 }
 
 // lvalueLocs resolves an assigns item to heap arrays (+ the object ref whose row may change).
@@ -637,7 +641,7 @@ func (x *Exec) lvalueLocs(env *SpecEnv, e *Expr) []heapLoc {
 			p := &Pointer{Base: v.Ref, ObjT: et, Elem: true, Idx: IntLit(0)}
 			for _, l := range leavesOf(et) {
 				key, stored, _ := x.leafKey(p, l)
-				out = append(out, heapLoc{key: key, sort: stored, ref: v.Ref})
+				out = append(out, heapLoc{key: key, sort: stored, ref: v.Ref, slice: true})
 			}
 			return out
 		}
